@@ -810,3 +810,18 @@ Proof.
   - now apply nodup_strb_sound.
   - intros Hin. apply existsb_eqb_in in Hin. rewrite Hin in H2. discriminate.
 Qed.
+
+(* ------------------------------------------------------------------ what a path held before does not matter:
+   every write(data, path) + load of a history gives what it gives on a fresh path *)
+Theorem history_independent : forall (V : Type) (xs : list (hitem V)) (file : fstore V),
+    roundtrip_history V file xs = map (roundtrip_item V) xs.
+Proof.
+  intros V xs. induction xs as [|x t IH]; intros file; [reflexivity|].
+  simpl. f_equal; [|apply IH].
+  unfold write_then_load, roundtrip_item, open_file_w.
+  destruct x as [d|m].
+  - unfold roundtrip_document, l_write_document.
+    destruct (write_document V (fstore V) (f_empty V) (f_mkgroup V) (f_mkarray V) d); reflexivity.
+  - unfold roundtrip_morphology, l_write_morphology.
+    destruct (write_morphology V (fstore V) (f_empty V) (f_mkgroup V) (f_mkarray V) m); reflexivity.
+Qed.
